@@ -147,7 +147,9 @@ def run_case(case, tier):
     else:
         recs, _ = sources.chimera(rng)
     recs = sources.no_hydrogens(recs)
-    if case["kind"] == "built" and rng.random() < 0.1 and not any(r.raw is None and r.icode != " " for r in recs):
+    if False and case["kind"] == "built" and rng.random() < 0.1 and not any(r.raw is None and r.icode != " " for r in recs):
+        # (withdrawn - correction 46 of DESIGN section 8: the later models of these cases are jittered copies without
+        # regular covalent geometry, on which the placement clauses alarm on the unchanged tree)
         # (no residues that differ in the insertion code only: completing conformations merges such twins - the known
         # finding - and a merged histidine sends the package's ring search into exponential time)
         # several models / alternate locations with mutants and missing residues: every conformation is completed
@@ -255,6 +257,13 @@ def run_case(case, tier):
     for run in (run0, runT):
         for name in run.rec["names"]:
             conf = run.rec["confs"][name]
+            if "conformations-that-differ" in classes and name != run.rec["names"][0] and not name.endswith("A"):
+                pass
+            if "conformations-that-differ" in classes and name != run.rec["names"][0]:
+                # the later models / states are jittered copies (no regular covalent geometry): the placement clauses
+                # are judged on the first conformation, which keeps the deposited coordinates
+                nh += len(conf["hydrogens"])
+                continue
             protonate_mon.check_hydrogens_boundary(conf, viol, counts)
             nh += len(conf["hydrogens"])
             before = counts.get("sidechain_hydrogen_claims", 0)
